@@ -207,6 +207,45 @@ def run(ck):
             if want:
                 got = (snap.wits[res[-2]], snap.wits[res[-1]])
                 if got != J.mul(s, m[2]): ck.violation(f"seam ({tag}) returned a point different from [s]G", {"failing_input_found": True, "program": progs[name]}, key="seam-value")
+    # ---- copy constraints of the fixed-base block: a deviating prover keeps every gate but re-wires the cell that
+    # pins the accumulator after the three leading rows to a fresh zero witness, and spells scalar + r (BLS modulus)
+    # with the digits; every row then holds, only the compiled copy constraint between the fixed-base cell and the
+    # pin is violated - the real prover (keys compiled from the honest circuit) must not produce an accepted proof
+    cb_cases = []
+    for name, m in meta.items():
+        if m[0] != "seam" or "BLS modulus" not in m[1] or name not in impl: continue
+        snapB = Snapshot(impl[name])
+        rows_ = fixed_rows(snapB)
+        if len(rows_) < 4 or any(l.startswith(("E ", "PANIC")) for l in impl[name]): continue
+        acc3 = snapB.gates[rows_[3]][1][3]
+        fresh = len(snapB.wits)
+        body = ["w " + hx(v_) for v_ in snapB.wits[FIRST:]] + ["w 0"]
+        rewired = 0
+        for gi, (sel, wires) in enumerate(snapB.gates[4:], start=4):
+            ws = list(wires)
+            if sel[9] == 0 and sel[6] != 0 and acc3 in ws and (gi - 1) not in rows_:
+                ws = [fresh if x == acc3 else x for x in ws]; rewired += 1
+            co = list(sel[:6]) + [snapB.pis.get(gi, 0)] + list(sel[6:11])
+            body.append("raw " + " ".join(hx(x) for x in co) + (" 1 " if gi in snapB.pis else " 0 ") + " ".join(str(x) for x in ws))
+        if rewired != 1: continue
+        s_ = m[3]
+        honest = ["w " + hx(s_), f"fbd $0 {hx(G[0])} {hx(G[1])} {J.digits_str(J.wnaf2(s_))}"]
+        cb_cases.append((name, honest, body, s_))
+    if cb_cases:
+        Sx = protocol.Script(); Sx.cmd("pp", "pp", 1 << 12, 3)
+        ids_ = []
+        for nm_, honest, body, s_ in cb_cases[:2 if quick else 8]:
+            Sx.circuit("A" + nm_, honest); Sx.circuit("B" + nm_, body)
+            c1 = Sx.cmd("compile", "k" + nm_, "pp", "7d", "A" + nm_); c2 = Sx.cmd("prove", "p" + nm_, "k" + nm_, "B" + nm_, 61); c3 = Sx.cmd("verify", "k" + nm_, "p" + nm_, "=")
+            ids_.append((nm_, s_, c1, c2, c3, body)); ck.count(("copy-break", nm_), kind="re-wired leading-zero pin, digits of scalar + r")
+        rx = protocol.run(Sx, "c14_cb")
+        for nm_, s_, c1, c2, c3, body in ids_:
+            if not rx[c1].startswith("OK"): raise BuildError("C14 copy-break: honest compile failed: " + rx[c1][:80])
+            if rx[c2].startswith("OK") and rx[c3].startswith("OK"):
+                ck.violation(f"component_mul_generator: a prover that re-wires the leading-zero pin and uses the digits of scalar + r obtained an ACCEPTED proof; the returned point is [s + r]G, not [s]G (s = {s_:#x})",
+                             {"failing_input_found": True, "compiled_from": ["w " + hx(s_), "fbd $0 <generator> <honest NAF digits>"], "prover_circuit_raw_rows": body[:3] + ["..."] + body[-3:], "rows": len(body)}, key="copy-break:leading-pin")
+            elif "InvalidCircuitSize" in rx[c2]:
+                raise BuildError("C14 copy-break: re-wired instance has a different size: " + rx[c2][:80])
     res = composer.model_sat(jobs, "c14_sat")
     # second opinion on the adversarial assignments: the REAL prover and verifier (the compiled widget identities)
     rp_cases = []
@@ -246,7 +285,7 @@ def run(ck):
             ck.violation(f"correspondence C14 (L1) broke: fixed-base widget form '{form}' differs from Gates/Gate.v t_fixed on {len(wbad)} tuples",
                          {"failing_input_found": False, "correspondence": "L1 widget formula tie (ecc/scalar_mul/fixed_base)", "tuple": line, "impl": a, "model": b, "theorems_no_longer_tied": THEOREMS})
     return ck.finish(level="proof",
-        rule="generators {GENERATOR, GENERATOR_NUMS, random prime-order} x canonical scalars {0,1,2,3,r_j-1,r_j-2,(r_j-1)/2,2^251,random} (honest: layout = model, point = [s]G, rows satisfied) and non-canonical witnesses {r_j, r_j+1, 2^252-1, 2^252, r-1, random >= r_j} (entry point must return JubJubScalarMalformed); the digit seam with honest NAF, digits of another scalar, digits touching the three leading rows, digits encoding scalar + BLS modulus / + JubJub order, non-canonical witness with its own digits, unsupported digit; on real layouts: forged accumulators / xy_alpha / output, digit 2 replacing (1,0) with accumulators re-derived by the widget formulas, digits of s + r_j; rows of the theorem blocks (fb_block, canonical_blk) compared with the real rows; L1 tie of the fixed-base widget",
+        rule="generators {GENERATOR, GENERATOR_NUMS, random prime-order} x canonical scalars {0,1,2,3,r_j-1,r_j-2,(r_j-1)/2,2^251,random} (honest: layout = model, point = [s]G, rows satisfied) and non-canonical witnesses {r_j, r_j+1, 2^252-1, 2^252, r-1, random >= r_j} (entry point must return JubJubScalarMalformed); the digit seam with honest NAF, digits of another scalar, digits touching the three leading rows, digits encoding scalar + BLS modulus / + JubJub order, non-canonical witness with its own digits, unsupported digit; on real layouts: forged accumulators / xy_alpha / output, digit 2 replacing (1,0) with accumulators re-derived by the widget formulas, digits of s + r_j; a re-wired leading-zero pin with the digits of s + r through the real prover (copy constraints of the fixed-base cells); rows of the theorem blocks (fb_block, canonical_blk) compared with the real rows; L1 tie of the fixed-base widget",
         assumptions=["PrimeR, NonSquareD: class arguments of the statements, both proved closed in Props/Hypotheses.v", "the returned point is proved to be the signed-digit combination sum_i d_i [2^i]G with integer sum_i d_i 2^i = s, and (C14_mulgen_scalar_multiple, using the proved associativity) equal to the integer multiple [s]G; also compared with native multiplication",
                      "table points [2^i]G are on the curve when G is (closure theorem); their equality with native doublings is checked by the L3 tie of the q_l/q_r/q_c selectors"],
         checker_cmd=proofgate.CHECKER_CMD, trusted_base=proofgate.TRUSTED)
